@@ -261,6 +261,52 @@ func c12Others(fs *Facts) {
 	}
 	fs.Tri("patchExpiredLocksFirst", pe, where)
 	fs.Tri("expiredHoldsCapMu", holds, where)
+	// the cap handed to SelectExpiredForPatchWithCap: that function counts over the index it is called
+	// on (the expiration-time index: records with an ExpiredAt only)
+	all, whereAll := Unknown, where
+	if err == nil {
+		if fn := f.Func("swamp", "PatchExpired"); fn != nil {
+			calls := f.CallsSuffix(fn, ".SelectExpiredForPatchWithCap")
+			if len(calls) == 1 && len(calls[0].Args) == 4 && f.Str(calls[0].Fun) == "s.expirationTimeBeaconASC.SelectExpiredForPatchWithCap" {
+				whereAll = c14Where(f, calls[0])
+				arg := f.Str(calls[0].Args[3])
+				const diff = "s.beaconKey.CountMatching(capPredicate) - s.expirationTimeBeaconASC.CountMatching(capPredicate)"
+				switch {
+				case arg == "int(capMax)" && !f.Contains(fn, "s.beaconKey.CountMatching"):
+					all = No
+				case arg != "int(capMax)" && c12Ident(arg):
+					// V := int(capMax); outside := <all> - <indexed>; V -= outside   — in this order, before the call
+					init, out, sub := -1, -1, -1
+					outName := ""
+					for i, st := range f.Stmts(fn) {
+						t := f.Str(st)
+						switch {
+						case t == arg+" := int(capMax)" && init < 0:
+							init = i
+						case strings.HasSuffix(t, " := "+diff) && out < 0:
+							out, outName = i, strings.TrimSuffix(t, " := "+diff)
+						case outName != "" && t == arg+" -= "+outName && sub < 0:
+							sub = i
+						}
+					}
+					assigns := 0
+					for _, st := range f.Stmts(fn) {
+						if as, ok := st.(*ast.AssignStmt); ok {
+							for _, l := range as.Lhs {
+								if f.Str(l) == arg {
+									assigns++
+								}
+							}
+						}
+					}
+					if init >= 0 && out > init && sub > out && assigns == 2 {
+						all = Yes
+					}
+				}
+			}
+		}
+	}
+	fs.Tri("expiredCountsAll", all, whereAll)
 
 	g, err := Load(c12Beacon)
 	sel, sm := Unknown, Unknown
@@ -311,4 +357,16 @@ func c12Others(fs *Facts) {
 		}
 	}
 	fs.Tri("shiftCountsUnderLock", sm, where)
+}
+
+func c12Ident(s string) bool {
+	if s == "" {
+		return false
+	}
+	for i, r := range s {
+		if !(r == '_' || (r >= 'a' && r <= 'z') || (r >= 'A' && r <= 'Z') || (i > 0 && r >= '0' && r <= '9')) {
+			return false
+		}
+	}
+	return true
 }
